@@ -17,7 +17,9 @@ The oracle (`laws`, evaluated on the live objects inside run_impl, reported in t
 written from the English statement: deep-copy before each operation and compare afterwards, shallow
 identity snapshots of every node, get-after-set, frame, set-same, SKIP ignored, items = independent
 DFS leaf enumeration, multi-key reads aligned, apply = independent recursive leaf map, in-place set
-touches only objects on the path.
+touches only objects on the path; a successful single-path set INTO an ndarray (any depth, ints / tuples of ints) is
+numpy's item assignment on a copy of the array (in place: on the array): read-back of the broadcast value + frame
+inside the array (`_array_set_law`, wp-C18D).
 """
 import copy
 import itertools
@@ -40,15 +42,17 @@ TRUSTED = [
     'in the correspondence, which compares object identity, BUFFER identity (owner of the memory: end of the .base chain), window '
     'offset, shape and elements of every array in every result; modelled-not-verified numpy facts: basic integer indexing returns a view '
     '(ndim > 1) or a scalar, copy.copy(arr) owns a new buffer, assignment broadcasts (surplus leading 1-dims dropped, lists converted with '
-    'at most ndim(window) dimensions), int64 only; a tuple-of-ints key (numpy multi-dimensional index) is NOT modelled: the model skips the '
-    'op, the real code still runs the copying ones and the ORACLE alone judges them; key_paths= views are not modelled',
+    'at most ndim(window) dimensions), int64 only; a tuple-of-ints key (numpy multi-dimensional index) resolves its axes in ONE step '
+    '(XKey.tup / tupWin in Model/Tree.lean, wp-C18D): modelled in every read and every single-path set; a set that would STORE a tuple as a dict key '
+    '(tuple key met at a dict / below a NullMap), multi-path sets / updates with tuple keys and normalize_keys of tuples stay outside: the model skips / '
+    'answers `.other`, the real code still runs the copying ones and the ORACLE alone judges them; slice keys and key_paths= views are not modelled',
     'reserved keys vs plain strings of the same spelling: on the wire the reserved key is the bare string "SELF"/"SKIP", a plain str key is '
     '{"s": "SELF"}; World.pkey builds Key.SELF / the str, the driver PKey.self / PKey.str "SELF"; `_is_key` is written out in '
     'Model/TreeKey.lean (Python types of key objects, isinstance along Reserved<str and Index<int, == on key objects) and proved equal to the '
     'pattern matching of Model/Tree.lean (C18_reserved_vs_plain_model); modelled-not-verified: Reserved subclasses str with inherited __eq__/__hash__',
 ]
 ASSUMPTIONS = [
-    'leaves are int/str/None; ndarrays are int64, 1-D or 2-D, C-contiguous (owning arrays and views of them); dict keys are '
+    'leaves are int/str/None; ndarrays are int64, 1-D to 3-D, C-contiguous (owning arrays and views of them); dict keys are '
     'str/int/Index/Literal objects (an Index and the equal int never in one dict; str keys of ANY spelling, the spellings of the reserved keys included; '
     'never a Reserved OBJECT, a bool or a float as a dict key of the input: 1 == True == 1.0 collide by value like Index(1) == 1 and are not modelled); '
     'the view is built without key_paths',
@@ -64,7 +68,10 @@ RULE = ('heaps of <= ~25 cells (trees of depth <= 4 of dict/list/tuple with int/
         'buffer with another array inside or outside the tree) and copying AND in-place sets / updates / reads / items / apply whose paths '
         'index into them (existing / negative / out-of-range index, key == len (AssertionError), str key, SELF / SKIP below the array, too '
         'deep; values: int, arrays of equal / broadcastable / incompatible shape incl. a view of the same buffer, flat / nested / ragged int '
-        'lists, str, None, dict, NullMap) — model and code compared incl. buffer sharing; tuple-of-ints keys oracle only; (b) iterate a view, derive a view by '
+        'lists, str, None, dict, NullMap) — model and code compared incl. buffer sharing; (a2, wp-C18D, drawn LAST) 2-D / 3-D arrays and views of a 3-D '
+        "array's buffer, 1..3 axes resolved below the array by ints / Index / tuples of ints (full, partial, split, empty, out of range, too long), copying and "
+        'in-place sets with values broadcast to the addressed block (equal shape, fewer dims, size-1 axes, surplus leading 1-axes, incompatible, nested lists / '
+        'tuples, views of the same buffer, non-numeric), reads and multi-key reads — all predicted by the model; (b) iterate a view, derive a view by '
         'a copying set/update that changes the set of leaf paths (fresh key, append, leaf->subtree, subtree->leaf), iterate the '
         'derived view object itself, chains of these. Along a sequence the SAME view objects are used (the view an op returned is '
         'the one later ops read) and the items oracle is evaluated on every source and derived view object; '
@@ -130,7 +137,7 @@ class World:
       o = int(c['v'])
     elif t == 'str':
       o = str(c['v'])
-    elif t in ('arr', 'arr2'):       # 1-D / 2-D integer ndarray owning its buffer
+    elif t in ('arr', 'arr2', 'arr3'):   # 1-D / 2-D / 3-D integer ndarray owning its buffer
       o = np.array(c['v'], dtype=np.int64)
     elif t == 'view':                # another array object on the buffer of cell `of` (window off, shape)
       own = self.obj(c['of'])
@@ -569,7 +576,7 @@ def run_impl(case):
   T = _tree()
   w = World(case)
   labels = Labels({id(w.objs[r]): f'cell#{r}' for r, c in enumerate(case['heap'])
-                   if c['t'] in ('dict', 'list', 'tuple', 'arr', 'arr2', 'view', 'null') and not (c['t'] == 'tuple' and not c['rs'])})
+                   if c['t'] in ('dict', 'list', 'tuple', 'arr', 'arr2', 'arr3', 'view', 'null') and not (c['t'] == 'tuple' and not c['rs'])})
   for r, b in buffer_cells(case['heap']).items():      # the buffer of an owning array = the model's appended cell
     labels.tab[('buf', id(w.objs[r]))] = f'cell#{b}'
   known = {}            # id -> object: every identity-carrying object seen so far (kept alive)
@@ -614,13 +621,18 @@ def run_impl(case):
         return
       value = w.objs[op['value']] if 'value' in op else None
       in_place = bool(op.get('in_place', False))
-      # A tuple-of-ints key (numpy multi-dimensional index) is outside the Lean model: the model skips the
-      # op.  The real code still runs it — copying ops only — and the oracle below judges it (no mutation of
-      # the original arrays, get-after-set, frame); the observation stays 'skipped'.
+      # Tuple-of-ints keys (numpy multi-dimensional indices) are in the Lean model for reads and single-path sets
+      # (wp-C18D).  What is still outside (`unmodelled`, `_tuple_stored`): the model skips the op / answers `.other`;
+      # the real code still runs it — copying ops only — and the oracle below judges it (no mutation of the
+      # original arrays, get-after-set, frame); the observation stays 'skipped'.
       skip = unmodelled(op)
+      stored = False
+      if not skip and kind == 'set' and has_tuple_key(op):
+        stored = _tuple_stored(T, root, w.keys(op['keys']), strict)
+        skip = stored
       oracle_only = skip
       if skip and (in_place or kind not in ('get', 'getd', 'set', 'update')):
-        ops_obs.append({'skipped': True})
+        ops_obs.append({'skipped': True, 'unmodelled': True} if stored else {'skipped': True})
         results.append(NOROOT)
         return
       before_nodes = dict(known)
@@ -629,6 +641,7 @@ def run_impl(case):
         nodes(value, before_nodes)
       snap_shallow = {k: shallow(o) for k, o in before_nodes.items()}
       snap_deep = copy.deepcopy(root)
+      value_snap = copy.deepcopy(value) if in_place and isinstance(value, np.ndarray) else value   # a view of the written buffer
       view = view_for(op['root'], root)
       obs, res_root = {}, NOROOT
       new_view = None
@@ -661,8 +674,11 @@ def run_impl(case):
           if not in_place:
             _set_laws(T, w, law, i, op, view, nv, keys, value)
             _items_laws(T, w, law, i, nv, 'view returned by copy_and_set')
-          elif nv is not view:
-            law(i, 'in-place set returned another view')
+          else:
+            if nv is not view:
+              law(i, 'in-place set returned another view')
+            if isinstance(keys, T.Key):
+              _array_set_law(T, law, i, keys, value_snap, snap_deep, root, True)
         elif kind == 'update':
           pairs = [(w.path(p, op.get('bare', False)), w.objs[v]) for p, v in op['pairs']]
           other = dict(pairs) if op.get('asdict', False) else pairs
@@ -728,7 +744,7 @@ def run_impl(case):
         if bad:
           law(i, 'in-place set changed an object that is not on the key path')
       if oracle_only:          # judged by the laws above; not part of the correspondence
-        ops_obs.append({'skipped': True})
+        ops_obs.append({'skipped': True, 'unmodelled': True} if stored else {'skipped': True})
         results.append(NOROOT)
         _KEEP.append((view, res_root, new_view))
         return
@@ -844,6 +860,75 @@ def _into_array(T, root, key):
   return False
 
 
+def _array_split(T, root, key):
+  """(prefix keys up to the first ndarray met with keys still to go, the numpy multi-index the remaining keys spell)
+  when ALL remaining keys are ints / Index / tuples of ints; None otherwise."""
+  cur, ks = root, list(key)
+  for i, k in enumerate(ks):
+    if isinstance(k, (T.Reserved, T.Literal)):
+      return None
+    if isinstance(cur, np.ndarray):
+      idx = []
+      for x in ks[i:]:
+        if isinstance(x, tuple) and all(isinstance(y, int) and not isinstance(y, bool) for y in x):
+          idx.extend(int(y) for y in x)
+        elif isinstance(x, int) and not isinstance(x, bool):
+          idx.append(int(x))
+        else:
+          return None
+      return ks[:i], tuple(idx)
+    try:
+      cur = cur[k]
+    except Exception:  # pylint: disable=broad-except
+      return None
+  return None
+
+
+def _numpy_value(T, value):
+  """The value as numpy sees it in an assignment, or None when it is not a (nested list of) int / an int array."""
+  if isinstance(value, bool) or isinstance(value, (str, dict, T.NullMap)) or value is None:
+    return None
+  if isinstance(value, (int, np.integer, np.ndarray)):
+    return value
+  if isinstance(value, (list, tuple)):
+    try:
+      a = np.asarray(value)
+    except Exception:  # pylint: disable=broad-except
+      return None
+    return value if a.dtype == np.int64 else None
+  return None
+
+
+def _array_set_law(T, law, i, key, value, old_root, new_root, in_place):
+  """A set through a path INTO an ndarray (any depth, ints and tuples of ints below the array) is numpy's item
+  assignment on the addressed item — of a COPY of the array (copying set) or of the array itself (in place): the
+  array read back at the array's own path equals `expected = old.copy(); expected[i, j, ...] = value`, i.e. the
+  addressed window holds the value BROADCAST to its shape (get after set, by value) and every element outside the
+  window is the old one (frame inside the array).  Written from numpy's assignment, not from tree.py or the model."""
+  sp = _array_split(T, old_root, key)
+  nval = _numpy_value(T, value)
+  if sp is None or nval is None or not sp[1]:
+    return
+  prefix, idx = sp
+  old = read(T.TreeMapView(old_root), T.Key(tuple(prefix)))
+  new = read(T.TreeMapView(new_root), T.Key(tuple(prefix)))
+  if old[0] != 'ok' or not isinstance(old[1], np.ndarray):
+    return
+  if new[0] != 'ok' or not isinstance(new[1], np.ndarray):
+    law(i, f'after a set into the array at {prefix!r} that path does not read an array any more')
+    return
+  expected = old[1].copy()
+  try:
+    expected[idx] = nval
+  except (ValueError, TypeError, IndexError) as e:
+    law(i, f'set of {key!r} succeeded although numpy rejects the assignment ({err_kind(e)})')
+    return
+  if new[1].shape != expected.shape or new[1].dtype != expected.dtype or not np.array_equal(new[1], expected):
+    law(i, f'after setting {key!r} the array reads {new[1].tolist()!r}, numpy item assignment gives {expected.tolist()!r}')
+  if not in_place and np.shares_memory(new[1], old[1]):
+    law(i, f'the array returned by a copying set of {key!r} shares memory with the original')
+
+
 def _elementwise(T, view, key, value):
   """For a path into an ndarray the get/set law is claimed when one ELEMENT is assigned an int (assigning
   a row or a sequence broadcasts by numpy's rules, which is not a tree operation)."""
@@ -872,6 +957,8 @@ def _set_laws(T, w, law, i, op, view, nv, keys, value):
       norm.append(('skip', k, v, None))
     else:
       norm.append(('set', k, v, plain_prefix(T, ks)))
+  if len(plist) == 1 and norm[0][0] == 'set':
+    _array_set_law(T, law, i, plist[0][0], plist[0][1], root, nv.data, False)
   # SKIP ignores its value: with only SKIP keys the data reads exactly as before
   if plist and all(n[0] == 'skip' for n in norm):
     if not deq(nv.data, root):
@@ -929,20 +1016,76 @@ def buffer_cells(heap):
   """Model cell index of the buffer of every owning array cell: buffers are appended after the case's cells."""
   out, n = {}, len(heap)
   for r, c in enumerate(heap):
-    if c['t'] in ('arr', 'arr2'):
+    if c['t'] in ('arr', 'arr2', 'arr3'):
       out[r] = n
       n += 1
   return out
 
 
-def unmodelled(op):
-  """Tuple-of-ints keys (numpy multi-dimensional indices) are not in the Lean model."""
+def has_tuple_key(op):
+  """Does the op use a tuple-of-ints key (numpy multi-dimensional index) somewhere?"""
   def tk(p):
     return any(isinstance(k, dict) and 't' in k for k in p)
   if op['op'] in ('get', 'getd', 'set', 'normalize') and op.get('keys') != 'empty':
     return any(tk(p) for p in keys_paths(op['keys']))
   if op['op'] == 'update':
     return any(tk(p) for p, _ in op['pairs'])
+  return False
+
+
+def unmodelled(op):
+  """Tuple-of-ints keys are in the Lean model since wp-C18D (`XKey.tup`, `getVX` / `setPathX`): every read, and every
+  SINGLE-path set (copying or in place).  Still outside the model, decided from the op alone: `normalize_keys` of a
+  tuple, and multi-path sets / updates with a tuple key (oracle only, as before).  Decided on the live objects
+  (`_tuple_stored`): a set that would STORE a tuple as a dict key."""
+  if not has_tuple_key(op):
+    return False
+  if op['op'] in ('get', 'getd'):
+    return False
+  if op['op'] == 'set' and isinstance(op['keys'], dict) and 'path' in op['keys']:
+    return False
+  return True
+
+
+def _tuple_stored(T, root, key, strict):
+  """Would `_set_by_path(root, key, ...)` meet a TUPLE key at a dict, or any tuple key at / below a NullMap of a
+  non-strict view (`_default_tree` builds `{(i, j): ...}`)?  The model has no tuple dict keys (`DKey`): it answers
+  `.other` exactly there (Model/Tree.lean `setPathX`), and the op is judged by the oracle alone."""
+  cur = root
+  ks = list(key)
+  for i, k in enumerate(ks):
+    if isinstance(k, T.Reserved) and str(k) in ('SELF', 'SKIP') and type(k) is T.Reserved:
+      return False
+    if isinstance(cur, T.NullMap):
+      return (not strict) and any(isinstance(x, tuple) for x in ks[i:])
+    if isinstance(cur, dict):
+      if isinstance(k, tuple):
+        return True
+      try:
+        cur = cur.get(k, None) if k in cur else T.NullMap()
+      except TypeError:
+        return False
+      continue
+    if isinstance(cur, (list, tuple)):
+      if isinstance(k, tuple) or not isinstance(k, int):
+        return False
+      if k == len(cur):
+        cur = T.NullMap()
+        continue
+      try:
+        cur = cur[k]
+      except IndexError:
+        return False
+      continue
+    if isinstance(cur, np.ndarray) and cur.ndim > 0:
+      if isinstance(k, int) and not isinstance(k, tuple) and k == len(cur):
+        return False
+      try:
+        cur = cur[k]
+      except (IndexError, TypeError, ValueError):
+        return False
+      continue
+    return False
   return False
 
 
@@ -956,6 +1099,10 @@ def _model_heap(heap):
     elif c['t'] == 'arr2':
       cells.append({'t': 'nd', 'b': bufs[r], 'off': 0, 'shape': [len(c['v']), len(c['v'][0]) if c['v'] else 0]})
       extra.append({'t': 'buf', 'v': [e for row in c['v'] for e in row]})
+    elif c['t'] == 'arr3':
+      a = np.array(c['v'], dtype=np.int64)
+      cells.append({'t': 'nd', 'b': bufs[r], 'off': 0, 'shape': [int(x) for x in a.shape]})
+      extra.append({'t': 'buf', 'v': [int(x) for x in a.reshape(-1).tolist()]})
     elif c['t'] == 'view':
       cells.append({'t': 'nd', 'b': bufs[c['of']], 'off': c['off'], 'shape': list(c['shape'])})
     else:
@@ -987,6 +1134,11 @@ def compare(impl, model):
   if len(a) != len(b):
     return f'{len(a)} vs {len(b)} observations'
   for i, (x, y) in enumerate(zip(a, b)):
+    if x.get('unmodelled'):
+      # the real code would store a TUPLE as a dict key: the model answers `.other` exactly there (and nowhere else)
+      if y.get('err') != 'Exception':
+        return f'op {i}: a tuple key stored in a dict is outside the model, but the model answered {y.get("err")!r}'
+      continue
     if x != y:
       ks = sorted(set(x) | set(y))
       diff = [k for k in ks if x.get(k) != y.get(k)]
@@ -1019,7 +1171,10 @@ def extra(ctx):
                       'read returned a new view of an input buffer', 'copying set returned a new array on a new buffer',
                       'in-place set kept the array object', 'in-place write seen through >= 2 array objects (aliases)',
                       'multi-key set into an array: ok'],
-          'keyobj': ['set: a dict of the result holds an Index key object', 'items listed an Index held as a dict key']}
+          'keyobj': ['set: a dict of the result holds an Index key object', 'items listed an Index held as a dict key'],
+          'ndarray-deep': [f'{k}: {d} axes below the array, ok' for k in ('set', 'inplace', 'get') for d in ('1', '2', '3+')] +
+                          [f'{k} with a tuple key: {e}' for k in ('set', 'inplace', 'get') for e in ('ok', 'KeyError' if k != 'get' else 'IndexError')] +
+                          [f'{k} value {v}: ok' for k in ('set', 'inplace') for v in ('int', 'array', 'array (view)', 'list/tuple')]}
   missing = [f'{k}/{x}' for k, xs in need.items() for x in xs if not _STATS.get(k, {}).get(x)]
   if missing:
     ctx.notes.append('coverage holes: ' + ', '.join(missing))
@@ -1059,7 +1214,7 @@ def _nd_stats(case, op, o, kind):
       return None
     for k in p:
       c = heap[cur]
-      if c['t'] in ('arr', 'arr2', 'view'):
+      if c['t'] in ('arr', 'arr2', 'arr3', 'view'):
         return True
       nxt = None
       if c['t'] == 'dict' and isinstance(k, dict):
@@ -1083,6 +1238,39 @@ def _nd_stats(case, op, o, kind):
   if not any(into_arr(p) for p in ps):
     return
   _stat('ndarray', f"{kind} into an array: {o.get('err') or 'ok'}")
+  # wp-C18D: depth below the array (axes resolved), tuple keys, kind of the value assigned
+  def depth_in(p):
+    cur, heap = op.get('root'), case['heap']
+    for n, k in enumerate(p):
+      c = heap[cur]
+      if c['t'] in ('arr', 'arr2', 'arr3', 'view'):
+        return sum(len(x['t']) if isinstance(x, dict) and 't' in x else 1 for x in p[n:])
+      nxt = None
+      if c['t'] == 'dict' and isinstance(k, dict):
+        for dk, v in c['es']:
+          if dk == k or (('i' in dk or 'x' in dk) and dk.get('i', dk.get('x')) == k.get('x', k.get('i', object()))):
+            nxt = v
+      elif c['t'] in ('list', 'tuple') and isinstance(k, dict) and ('x' in k or 'i' in k):
+        i = k.get('x', k.get('i'))
+        if -len(c['rs']) <= i < len(c['rs']):
+          nxt = c['rs'][i]
+      if nxt is None:
+        return None
+      cur = nxt
+    return None
+  ok = o.get('err') is None
+  for p in ps:
+    if into_arr(p):
+      d = depth_in(p)
+      tk = any(isinstance(k, dict) and 't' in k for k in p)
+      if d is not None and ok:
+        _stat('ndarray-deep', f"{kind}: {min(d, 3)}{'+' if d >= 3 else ''} axes below the array, ok")
+      if tk:
+        _stat('ndarray-deep', f"{kind} with a tuple key: {o.get('err') or 'ok'}")
+  if kind in ('set', 'inplace') and 'value' in op and len(ps) == 1:
+    vt = case['heap'][op['value']]['t']
+    vt = {'arr': 'array', 'arr2': 'array', 'arr3': 'array', 'view': 'array (view)', 'list': 'list/tuple', 'tuple': 'list/tuple'}.get(vt, vt)
+    _stat('ndarray-deep', f"{kind} value {vt}: {o.get('err') or 'ok'}")
   if kind == 'set' and isinstance(op.get('keys'), dict) and 'multi' in op['keys'] and len(ps) > 1:
     _stat('ndarray', f"multi-key set into an array: {o.get('err') or 'ok'}")
   acc = []
@@ -1670,6 +1858,133 @@ def make_arr_case(rng):
   return {'strict': False, 'heap': g.cells, 'root': root, 'ops': ops}
 
 
+def make_deep_arr_case(rng):
+  """wp-C18D: 2-D and 3-D arrays (owning, and views of a 3-D array: a 2-D block, a 1-D row), paths of depth 1..3 INTO them
+  spelled with ints, Index objects, TUPLES of ints (full, partial, empty, mixed with ints, negative, out of range, too long)
+  — copying and in-place sets, reads, multi-key reads; values: ints, arrays broadcast to the addressed block (equal shape,
+  fewer dimensions, size-1 axes, surplus leading 1-axes, incompatible), nested int lists / tuples, views of the SAME
+  buffer, non-numeric values.  The model predicts all of them (tuple keys through `XKey.tup`)."""
+  g = Gen(rng)
+  v3 = rng.choice([
+      [[[0, 1], [2, 3], [4, 5]], [[6, 7], [8, 9], [10, 11]]],                       # 2 x 3 x 2
+      [[[1, 2, 3]], [[4, 5, 6]], [[7, 8, 9]]],                                      # 3 x 1 x 3
+      [[[1], [2]], [[3], [4]]],                                                     # 2 x 2 x 1
+  ])
+  a3 = g.add({'t': 'arr3', 'v': v3})
+  sh3 = [len(v3), len(v3[0]), len(v3[0][0])]
+  a2 = g.add({'t': 'arr2', 'v': rng.choice([[[0, 1, 2], [3, 4, 5]], [[1, 2], [3, 4], [5, 6]]])})
+  sh2 = [len(g.cells[a2]['v']), len(g.cells[a2]['v'][0])]
+  blk = rng.randrange(sh3[0])
+  v_blk = g.add({'t': 'view', 'of': a3, 'off': blk * sh3[1] * sh3[2], 'shape': [sh3[1], sh3[2]]})     # a3[blk]
+  v_row = g.add({'t': 'view', 'of': a3, 'off': blk * sh3[1] * sh3[2], 'shape': [sh3[2]]})             # a3[blk][0]
+  leaf = g.add({'t': 'int', 'v': 3})
+  lay = rng.randrange(5)
+  if lay == 0:
+    inner = g.add({'t': 'dict', 'es': [[{'s': 'w'}, a3]]})
+    root = g.add({'t': 'dict', 'es': [[{'s': 'm'}, inner], [{'s': 'q'}, a2], [{'s': 'b'}, leaf]]})
+    arrs = [([{'s': 'm'}, {'s': 'w'}], a3, sh3), ([{'s': 'q'}], a2, sh2)]
+  elif lay == 1:
+    root = g.add({'t': 'list', 'rs': [a3, a2, leaf]})
+    arrs = [([{'x': 0}], a3, sh3), ([{'x': 1}], a2, sh2)]
+  elif lay == 2:
+    root = a3
+    arrs = [([], a3, sh3)]
+  elif lay == 3:      # the array and two views of its buffer in one tree
+    root = g.add({'t': 'dict', 'es': [[{'s': 'a'}, a3], [{'s': 'blk'}, v_blk], [{'s': 'row'}, v_row]]})
+    arrs = [([{'s': 'a'}], a3, sh3), ([{'s': 'blk'}], v_blk, [sh3[1], sh3[2]])]
+  else:
+    tup = g.add({'t': 'tuple', 'rs': [a3, leaf]})
+    root = g.add({'t': 'dict', 'es': [[{'s': 't'}, tup], [{'i': 0}, a2]]})
+    arrs = [([{'s': 't'}, {'x': 0}], a3, sh3), ([{'i': 0}], a2, sh2)]
+  ints = [g.add({'t': 'int', 'v': v}) for v in (99, -7, 0)]
+  i7, i8 = g.add({'t': 'int', 'v': 7}), g.add({'t': 'int', 'v': 8})
+
+  def nested(shape, base=20):
+    """cells of a nested int list of the given shape"""
+    if not shape:
+      return g.add({'t': 'int', 'v': base})
+    return g.add({'t': rng.choice(['list', 'list', 'tuple']), 'rs': [nested(shape[1:], base + 10 * k) for k in range(shape[0])]})
+
+  def arr_of(shape, base=50):
+    n = 1
+    for x in shape:
+      n *= x
+    flat = list(range(base, base + n))
+    a = np.array(flat).reshape(shape).tolist()
+    return g.add({'t': {1: 'arr', 2: 'arr2', 3: 'arr3'}[len(shape)], 'v': a})
+
+  def value_for(s):
+    """a value for a window of shape `s`: mostly one numpy can broadcast to it"""
+    r = rng.random()
+    if r < 0.25 or not s:
+      return rng.choice(ints) if rng.random() < 0.9 or s else nested([2])
+    if r < 0.40:
+      return arr_of(list(s))                                          # equal shape
+    if r < 0.52:
+      return arr_of(list(s[1:])) if len(s) > 1 else arr_of([1])       # fewer dimensions / size-1 axis
+    if r < 0.62:
+      t = [1 if rng.random() < 0.5 else x for x in s]
+      return arr_of(t)                                                # size-1 axes
+    if r < 0.68 and len(s) < 3:
+      return arr_of([1] * (3 - len(s)) + list(s))                     # surplus leading 1-axes
+    if r < 0.80:
+      return nested(list(s) if rng.random() < 0.6 else list(s[1:]) or [1])
+    if r < 0.88:
+      return rng.choice([v_blk, v_row, a2])                           # a view of the same buffer / another array
+    if r < 0.94:
+      return arr_of([x + 1 for x in s])                               # not broadcastable
+    return rng.choice([g.add({'t': 'str', 'v': 'x'}), g.add({'t': 'none'}), g.add({'t': 'list', 'rs': [i7, g.add({'t': 'list', 'rs': [i8]})]})])
+
+  def chain(sh):
+    """(keys below the array, shape of the addressed item or None when the path is odd)"""
+    depth = rng.randrange(1, len(sh) + 1)
+    idx = [rng.randrange(-n, n) if rng.random() < 0.3 else rng.randrange(n) for n in sh[:depth]]
+    s = list(sh[depth:])
+    r = rng.random()
+    if r < 0.30:
+      keys = [{'x': i} if rng.random() < 0.7 else {'i': i} for i in idx]
+    elif r < 0.55:
+      keys = [{'t': idx}]                                              # one tuple for the whole chain
+    elif r < 0.75 and depth >= 2:
+      cut = rng.randrange(1, depth)
+      keys = [{'t': idx[:cut]}] + ([{'t': idx[cut:]}] if rng.random() < 0.5 else [{'x': i} for i in idx[cut:]])
+      if rng.random() < 0.5:
+        keys = [{'x': i} for i in idx[:cut]] + [{'t': idx[cut:]}]
+    elif r < 0.80:
+      keys = [{'t': []}] + [{'x': i} for i in idx]                     # a[()] is a view of a
+    else:
+      bad = rng.randrange(depth)
+      odd = list(idx)
+      odd[bad] = rng.choice([sh[bad], sh[bad] + 1, -sh[bad] - 1])
+      keys = rng.choice([[{'t': odd}], [{'x': i} for i in odd], [{'t': idx + [0] * (len(sh) - depth + 1)}],
+                         [{'t': idx}, {'s': 'a'}], [{'t': idx}, 'SELF'], [{'t': idx}, 'SKIP'], [{'s': 'zz'}, {'t': idx}]])
+      s = None
+    return keys, s
+
+  ops = []
+  cur = root
+  for _ in range(rng.randrange(1, 5)):
+    pre, cell, sh = rng.choice(arrs)
+    keys, s = chain(sh)
+    p = copy.deepcopy(pre) + keys
+    v = value_for(s if s is not None else sh[1:])
+    tgt = cur if rng.random() < 0.4 else root
+    k = rng.random()
+    if k < 0.45:
+      ops.append({'op': 'set', 'root': tgt, 'keys': {'path': p}, 'value': v, 'in_place': False})
+      cur = {'res': len(ops) - 1}
+    elif k < 0.65:
+      ops.append({'op': 'set', 'root': root, 'keys': {'path': p}, 'value': v, 'in_place': True})
+    elif k < 0.85:
+      ops.append({'op': rng.choice(['get', 'getd']), 'root': tgt, 'keys': {'path': p}})
+    elif k < 0.93:
+      pre2, _, sh2_ = rng.choice(arrs)
+      ops.append({'op': 'get', 'root': tgt, 'keys': {'multi': [p, copy.deepcopy(pre2) + chain(sh2_)[0]]}})
+    else:
+      ops.append({'op': 'items', 'root': tgt})
+  return {'strict': rng.random() < 0.1, 'heap': g.cells, 'root': root, 'ops': ops}
+
+
 def make_memo_case(rng):
   """Iterate a view, derive a view by a copying set/update that CHANGES the set of leaf paths (fresh key,
   index append, leaf -> subtree, subtree -> leaf), iterate the derived view object itself; chains of these."""
@@ -2007,6 +2322,10 @@ def gen_cases(ctx):
       ctx.count('op(colliding keys)', f)
     ctx.count('stage', 'reserved-spelling random (dict keys from the colliding pool)')
     yield case
+  # --- wp-C18D: deep paths / tuple keys / 3-D arrays / array and list values (after everything else: see above)
+  for _ in range(1500 if ctx.quick else 25000):
+    ctx.count('stage', 'ndarray deep paths + tuple keys')
+    yield make_deep_arr_case(rng)
 
 
 def neighbours(case, rng):
